@@ -1,9 +1,9 @@
 SPECIFICATION Spec
 CONSTANTS
- Fam = "ig"
- P1 = 4
- P2 = 3
- Dev = {}
+ Fam = "sensfile"
+ P1 = 0
+ P2 = 0
+ Dev = {"TermSwap"}
 INVARIANT Shape
 INVARIANT Final
 INVARIANT RoundTrip
